@@ -92,6 +92,11 @@ pub fn build_inner(prog: &Program, cfg: &CfgSpec, inputs: &[u64], pad: usize) ->
 }
 /// `probe = false`: the configuration is known to be admissible for this degree (a sibling circuit was built)
 pub fn build_inner_opt(prog: &Program, cfg: &CfgSpec, inputs: &[u64], pad: usize, probe: bool) -> Result<Inner, String> {
+    build_inner_full(prog, cfg, inputs, 0, pad, probe)
+}
+/// `pre` no-op gates before the program, `pad` after it: two circuits with the same program and pre + pad equal
+/// have the same common data but different constants / wiring, hence different verifier data
+pub fn build_inner_full(prog: &Program, cfg: &CfgSpec, inputs: &[u64], pre: usize, pad: usize, probe: bool) -> Result<Inner, String> {
     if cfg.keccak {
         return Err("inner configuration must be algebraic (Poseidon)".into());
     }
@@ -108,7 +113,7 @@ pub fn build_inner_opt(prog: &Program, cfg: &CfgSpec, inputs: &[u64], pad: usize
         if with_pis {
             b.register_public_inputs(&built.vals);
         }
-        for _ in 0..pad {
+        for _ in 0..pad + pre {
             b.add_gate(NoopGate, vec![]);
         }
         Ok::<usize, String>(b.build::<C>().common.degree_bits())
@@ -129,6 +134,9 @@ pub fn build_inner_opt(prog: &Program, cfg: &CfgSpec, inputs: &[u64], pad: usize
     }
     let built = guarded(|| {
         let mut b = CircuitBuilder::<F, D>::new(cfg.config());
+        for _ in 0..pre {
+            b.add_gate(NoopGate, vec![]);
+        }
         let built = prog::build(prog, &mut b, 64).map_err(|e| e.to_string())?;
         if with_pis {
             b.register_public_inputs(&built.vals);
